@@ -18,7 +18,30 @@ from exetera.core import fields as fld
 from exetera.core import operations as ops
 from exetera.core import validation as val
 import h5py
-import csv as csvlib
+
+
+def _csv_cell(value):
+    """
+    Text of one csv cell, quoted only when needed. A cell is quoted when it contains the
+    delimiter, a double quote, a line feed or a carriage return (csv.writer before Python 3.13
+    only quotes the characters of its own lineterminator, so with lineterminator='\\n' a cell
+    containing a lone '\\r' was written bare and read back as two records).
+    """
+    text = value if isinstance(value, str) else str(value)
+    if any(ch in text for ch in ',"\r\n'):
+        return '"' + text.replace('"', '""') + '"'
+    return text
+
+
+def _csv_line(row):
+    """
+    One csv record terminated by '\\n'. A record made of a single empty cell is written as ""
+    so that it is not mistaken for a blank line.
+    """
+    line = ','.join([_csv_cell(v) for v in row])
+    if len(row) == 1 and line == '':
+        line = '""'
+    return line + '\n'
 
 
 class HDF5DataFrame(DataFrame):
@@ -607,10 +630,8 @@ class HDF5DataFrame(DataFrame):
         fields_to_use = [self._columns[f] for f in field_name_to_use]
 
         with open(filepath, 'w') as f:
-            writer = csvlib.writer(f, delimiter=',',lineterminator='\n')
-
             # write header names
-            writer.writerow(field_name_to_use)
+            f.write(_csv_line(field_name_to_use))
 
             start_row = 0
             while True:
@@ -623,7 +644,7 @@ class HDF5DataFrame(DataFrame):
 
                 for i, row in enumerate(zip(*chunk_data)):
                     if filter_array is None or (i + start_row <len(filter_array) and filter_array[i + start_row] == True):
-                        writer.writerow(row)
+                        f.write(_csv_line(row))
 
                 if len(chunk_data[0]) < chunk_row_size:
                     break
